@@ -43,6 +43,37 @@ Proof.
   rewrite (H2 eq_refl), app_nil_r in H1. congruence.
 Qed.
 
+(* a write_all that ends in an error has not written everything *)
+Lemma write_all_err_short ws : forall buf d e ws',
+  write_all ws buf = (d, WErr e, ws') -> (length d < length buf)%nat.
+Proof.
+  induction ws as [|w ws IH]; intros buf d e ws' H.
+  - destruct buf; cbn [write_all] in H; discriminate.
+  - destruct buf as [|b buf']; [cbn [write_all] in H; discriminate|].
+    remember (b :: buf') as buf eqn:Hbuf. rewrite write_all_step in H by (subst buf; discriminate).
+    destruct w as [k| |e0]; cbv zeta in H.
+    + destruct (write_all ws (skipn (Nat.min (S k) (length buf)) buf)) as [[d1 r1] ws1] eqn:E.
+      injection H as <- -> <-. apply IH in E. rewrite skipn_length in E.
+      rewrite app_length, firstn_length.
+      pose proof (Nat.le_min_r (S k) (length buf)) as Hm.
+      destruct (length buf) as [|m'] eqn:El; [cbn in E; lia|]. cbn [Nat.min Init.Nat.min] in E |- *.
+      pose proof (Nat.le_min_r k m'). pose proof (Nat.le_min_l k m'). rewrite (Nat.min_l (Nat.min k m') m') by lia. lia.
+    + exact (IH _ _ _ _ H).
+    + injection H as <- _ _. subst buf. cbn. lia.
+Qed.
+
+(* C06 / C07, blocking connection, write half failing inside the keep-alive reply: the keep-alive is handed over (WOk) only when
+   the WHOLE reply has reached the transport; after a failure what reached it is a STRICT prefix of the reply, and the failure
+   is what the caller gets instead of the packet *)
+Theorem reply_whole_or_error pong ws d r ws' : reply_then_return pong ws = (d, r, ws') ->
+  (r = WOk -> d = pong) /\ (forall e, r = WErr e -> exists rest, pong = d ++ rest /\ rest <> []).
+Proof.
+  unfold reply_then_return. intros H. split.
+  - intros ->. exact (write_all_complete _ _ _ _ H).
+  - intros e ->. destruct (write_all_prefix _ _ _ _ _ H) as [rest [H1 _]]. exists rest. split; [exact H1|].
+    intros ->. rewrite app_nil_r in H1. apply write_all_err_short in H. subst d. lia.
+Qed.
+
 Definition accepts (w : wev) : bool := match w with WAccept _ => true | _ => false end.
 Definition no_fail (w : wev) : bool := match w with WFail _ => false | _ => true end.
 
